@@ -94,7 +94,7 @@ def _has_quant(e):
 
 
 class State:
-    __slots__ = ('env', 'heap', 'pc', 'axioms', 'maxid', 'marks', 'known', 'ghost')
+    __slots__ = ('env', 'heap', 'pc', 'axioms', 'maxid', 'marks', 'known', 'ghost', 'ymd')
 
     def __init__(self):
         self.env = {}
@@ -105,6 +105,7 @@ class State:
         self.marks = {}     # snapshots: name -> State
         self.known = {}     # id of a list/tuple term -> python list of its items (statically known length)
         self.ghost = {}
+        self.ymd = {}       # id of an ordinal term -> (y, m, d) constants already introduced for it
 
     def copy(self):
         s = State()
@@ -114,6 +115,7 @@ class State:
         s.marks = self.marks
         s.known = self.known
         s.ghost = self.ghost
+        s.ymd = self.ymd
         return s
 
     def add(self, *facts):
